@@ -50,7 +50,7 @@ def prefix_fn(st, a):
             if kind == "scale":
                 st.assume(z3.ForAll([m], z3.Implies(z3.And(m >= -1, m < n), P(m) == c * Q(m)), patterns=[P(m)]))
             else:
-                st.assume(z3.ForAll([m], z3.Implies(z3.And(m >= -1, m < n), P(m) == Q(m) / c), patterns=[P(m)]))
+                st.assume(z3.ForAll([m], z3.Implies(z3.And(m >= -1, m < n), z3.And(P(m) == Q(m) / c, z3.Implies(c != 0, P(m) * c == Q(m)))), patterns=[P(m)]))
         elif kind in ("add", "sub") and all(isinstance(x, Arr) and x.ndim == 1 for x in pv[1:3]):
             Q1, Q2 = prefix_fn(st, pv[1]), prefix_fn(st, pv[2])
             if kind == "add":
